@@ -260,7 +260,7 @@ def _sample(case):
 
 SUBS = [
     Sub('form-search', oracle, _classify, strategy=lambda tier: _cases(),
-        budget={'quick': 250, 'thorough': 1500}, sample=_sample,
+        budget={'quick': 250, 'thorough': 4000}, sample=_sample,
         fingerprint=lambda c: fingerprint(c),
         require_tags=('exact-hit', 'normalized-column-hit', 'back-off-hit',
                       'miss-with-near-match', 'lem:table', 'lem:morphy', 'lem:morphy-init',
